@@ -29,9 +29,9 @@ Definition first_state (a : app) : st :=
   x_st (if connected disc 0 then task_service cap lower c r disc s0 job
         else mkExec (set_cof true t0, snd s0) (Ok tt) 0 false false).
 
-Lemma Inv_first a : app_ok a -> Inv cap lower c r (first_state a).
+Lemma Inv_first a : Inv cap lower c r (first_state a).
 Proof.
-  intro Ha. unfold first_state. destruct (connected disc 0).
+  pose proof (app_ok_all a) as Ha. unfold first_state. destruct (connected disc 0).
   - apply Inv_task_service; auto. destruct (r_error r); auto. apply Good_init.
   - cbn [x_st]. destruct (Good_init (r_version r) (match r_error r with Some _ => true | None => false end) 0) as [I _].
     exact I.
@@ -51,14 +51,14 @@ Proof.
 Qed.
 
 (* nothing precedes the head, and the head is the serialisation of a clean task *)
-Theorem wire_head a : app_ok a ->
+Theorem wire_head a :
   let res := channel_service cap lower c r a disc in
   (o_wrote_header1 res = false -> o_writes1 res = [])
   /\ (o_wrote_header1 res = true ->
       exists h rest, o_writes1 res = WBytes h :: rest /\ HeadOK cap lower c r h).
 Proof.
-  intro Ha. cbn zeta. destruct (service_first a) as (E1 & E2 & _). cbn zeta in *. rewrite E1, E2.
-  destruct (Inv_first a Ha) as [I1 I2]. split; intro W.
+  cbn zeta. destruct (service_first a) as (E1 & E2 & _). cbn zeta in *. rewrite E1, E2.
+  destruct (Inv_first a) as [I1 I2]. split; intro W.
   - destruct (I1 W) as [_ Hn]. rewrite Hn. reflexivity.
   - destruct (I2 W) as (h & rest & Hw & Hok). exists h, (rev rest). rewrite Hw, rev_app_distr. auto.
 Qed.
@@ -72,20 +72,19 @@ Definition response_500 (n : nat) : list witem :=
                          (inr (err_InternalServerError, body)) in
   rev (ch_writes (snd (x_st x1))).
 
-Theorem served_500_bytes a : app_ok a ->
+Theorem served_500_bytes a :
   let res := channel_service cap lower c r a disc in
   o_served_500 res = true ->
   o_writes1 res = [] /\ o_writes res = response_500 (o_nws1 res).
 Proof.
-  intro Ha. cbn zeta. intro Hs.
+  cbn zeta. intro Hs.
   destruct (service_first a) as (E1 & E2 & E3). cbn zeta in *.
-  destruct (Inv_first a Ha) as [I1 _].
+  destruct (Inv_first a) as [I1 _].
   rewrite E1, E3. revert Hs I1. unfold channel_service, response_500, first_state.
   destruct (connected disc 0); [|cbn; discriminate].
   set (x := task_service cap lower c r disc _ _). unfold ladder.
   destruct (x_out x) as [u|e]; [cbn; discriminate|].
   destruct (exn_eqb e ClientDisconnected); [cbn; discriminate|].
-  destruct (is_Exception e); [|cbn; discriminate].
   destruct (t_wrote_header (fst (x_st x))) eqn:W; cbn [negb]; [cbn; discriminate|].
   intros _ I1. destruct (I1 eq_refl) as [_ Hn].
   destruct (x_st x) as [t ch]. cbn [fst snd] in *. destruct ch as [ws n]. cbn [ch_writes ch_nws] in *. subst ws.
@@ -129,8 +128,7 @@ Proof.
   unfold task_service, task_run, wsgi_execute. rewrite Hrun. cbn [x_out x_st].
   assert (Hos : is_OSError e = false) by (destruct Hcls; subst; reflexivity).
   assert (Hcd : exn_eqb e ClientDisconnected = false) by (destruct Hcls; subst; reflexivity).
-  assert (Hex : is_Exception e = true) by (destruct Hcls; subst; reflexivity).
-  rewrite Hos. cbn [x_out x_st]. rewrite Hcd, Hex, Hw2. cbn [negb].
+  rewrite Hos. cbn [x_out x_st]. rewrite Hcd, Hw2. cbn [negb].
   repeat match goal with
          | |- context [match ?x with _ => _ end] => destruct x eqn:?
          end; reflexivity.
@@ -145,17 +143,24 @@ Definition sample_cfg : cfg :=
 Definition sample_req : req := mkReq (lit "1.1") None false false None.
 
 (* header pairs passed as LISTS and mutated after start_response validated them:
-   response_headers.extend(headers) keeps references to the pair objects *)
+   start_response stores fresh tuples (commit 2730de7), the mutation has no effect *)
 Definition alias_app : app :=
   mkApp [AStart (PStr (lit "200 OK")) [(PStr (lit "X-A"), PStr (lit "ok"))] None;
          AMutate 0 true (lit "x" ++ CRLF ++ lit "Set-Cookie: evil=1")]
         (KSized 1) [mkStep [] (SYield (lit "body"))] false None.
 
-Lemma pair_alias_injects :
+Lemma mutation_no_effect cap lower c r disc s i isv v :
+  run_action cap lower c r disc s (AMutate i isv v) = (s, Ok tt).
+Proof. reflexivity. Qed.
+
+Lemma pair_alias_harmless :
   exists h rest,
     o_writes (run_task sample_cfg sample_req alias_app None) = WBytes h :: rest
-    /\ In (lit "Set-Cookie: evil=1") (split h CRLF).
-Proof. vm_compute. eexists. eexists. split; [reflexivity|]. simpl. tauto. Qed.
+    /\ In (lit "X-A: ok") (split h CRLF) /\ ~ In (lit "Set-Cookie: evil=1") (split h CRLF).
+Proof.
+  vm_compute. eexists. eexists. split; [reflexivity|]. split; [simpl; tauto|].
+  simpl. intro H. repeat (destruct H as [H|H]; [discriminate H|]). exact H.
+Qed.
 
 Lemma sample_cfg_clean : cfg_clean sample_cfg.
 Proof. split; reflexivity. Qed.
